@@ -49,7 +49,9 @@ fn layers(id: &str) -> (&'static str, Vec<Layer>) {
         // C06 / C07 / C09 / C12: the unsafe code these reach is the `downcast_raw` plumbing of
         // Layered / Filtered / reload / fmt and tracing-error's WithContext; thorough only
         "C06" => ("c06", vec![
+            Layer { tool: Miri, kind: "trace", extra: &[("rounds", "2")], quick: 4, thorough: 32 },
             Layer { tool: Miri, kind: "hist", extra: &[("hist", "3")], quick: 0, thorough: 48 },
+            Layer { tool: Asan, kind: "trace", extra: &[("rounds", "40")], quick: 0, thorough: 32 },
         ]),
         "C07" => ("c07", vec![
             Layer { tool: Miri, kind: "hist", extra: &[("hist", "1")], quick: 0, thorough: 32 },
